@@ -426,9 +426,13 @@ func (ro *Roles) orderRules(r *Report, rule string) {
 		res := w.EnumPaths(fn, EnumOpts{})
 		okC := false
 		for _, pth := range res.Paths {
-			if len(pth.Ret) == 1 && (pth.Ret[0] == "!(time.Time).Before(free:res[arg0].Created,free:res[arg1].Created)" || strings.HasPrefix(pth.Ret[0], "!(time.Time).Before(") && argOrder(pth.Ret[0], "[arg0].Created", "[arg1].Created") ||
-				strings.HasPrefix(pth.Ret[0], "(time.Time).After(") && argOrder(pth.Ret[0], "[arg0].Created", "[arg1].Created") ||
-				strings.HasPrefix(pth.Ret[0], "(time.Time).Before(") && argOrder(pth.Ret[0], "[arg1].Created", "[arg0].Created")) {
+			if len(pth.Ret) != 1 {
+				continue
+			}
+			ret := strings.ReplaceAll(pth.Ret[0], "c1.arg", "arg")
+			if strings.HasPrefix(ret, "!(time.Time).Before(") && argOrder(ret, "[arg0].Created", "[arg1].Created") ||
+				strings.HasPrefix(ret, "(time.Time).After(") && argOrder(ret, "[arg0].Created", "[arg1].Created") ||
+				strings.HasPrefix(ret, "(time.Time).Before(") && argOrder(ret, "[arg1].Created", "[arg0].Created") {
 				okC = true
 			}
 		}
